@@ -179,6 +179,13 @@ func runC18(c *Ctx) {
 			continue
 		}
 		pw, pr := urlPairsWritten(pkg, w), urlPairsRead(pkg, rd)
+		// on the SSA form the reads are followed through helpers (a helper that is handed the key,
+		// one that returns the decoded subject): use it when it sees at least what the AST match sees
+		if fn := p.Func("(*" + apiRel + "." + typ + ").FromURLQuery"); fn != nil {
+			if ps := urlPairsReadSSA(fn, typ); len(ps) >= len(pr) {
+				pr = ps
+			}
+		}
 		sw, sr := pairsString(pw), pairsString(pr)
 		r.Check(strings.Join(sw, ",") == strings.Join(sr, ",") && len(sw) >= 3, "R18.1", name, "URL key <-> field table", p.Pos(w.Pos()),
 			fmt.Sprintf("writer and reader agree on %d (key, field) pairs: %v", len(sw), sw),
@@ -429,6 +436,48 @@ func r183(c *Ctx, pkg *packages.Package) {
 			if !ok {
 				return true
 			}
+			// the cut may go through a helper of the package that is handed the separator:
+			// field, rest, err := cutField(s, ":", ...)
+			if fid, isID := call.Fun.(*ast.Ident); isID && !writer {
+				if fo, ok := pkg.TypesInfo.Uses[fid].(*types.Func); ok && fo.Pkg() == pkg.Types {
+					for _, f := range pkg.Syntax {
+						for _, d := range f.Decls {
+							hd, ok := d.(*ast.FuncDecl)
+							if !ok || pkg.TypesInfo.Defs[hd.Name] != types.Object(fo) || hd.Body == nil {
+								continue
+							}
+							// which parameter is the separator of a strings.Cut in the helper?
+							var params []types.Object
+							for _, fl := range hd.Type.Params.List {
+								for _, nm := range fl.Names {
+									params = append(params, pkg.TypesInfo.Defs[nm])
+								}
+							}
+							ast.Inspect(hd.Body, func(n2 ast.Node) bool {
+								c2, ok := n2.(*ast.CallExpr)
+								if !ok || len(c2.Args) != 2 {
+									return true
+								}
+								s2, ok := c2.Fun.(*ast.SelectorExpr)
+								if !ok || s2.Sel.Name != "Cut" {
+									return true
+								}
+								if sid, ok := unparen(c2.Args[1]).(*ast.Ident); ok {
+									for k, po := range params {
+										if po != nil && pkg.TypesInfo.Uses[sid] == po && k < len(call.Args) {
+											if sv, ok := constName(pkg.TypesInfo, call.Args[k]); ok {
+												out = append(out, sv)
+											}
+										}
+									}
+								}
+								return true
+							})
+						}
+					}
+				}
+				return true
+			}
 			sel, ok := call.Fun.(*ast.SelectorExpr)
 			if !ok {
 				return true
@@ -639,4 +688,183 @@ func freshDecodeReceivers(c *Ctx, rule string) {
 	r.Check(len(bad) == 0, rule, "handlers and CLI", "decoders in loops get fresh receivers", "",
 		fmt.Sprintf("none of the %d decoder calls reuses a receiver across loop iterations", n),
 		strings.Join(bad, "; ")+": fields the decoder does not set keep the value of the previous iteration (e.g. the subject id of the tuple before)")
+}
+
+// urlPairsReadSSA: URL key -> field path for every store into a field of the decoded value (and of
+// the struct literals stored there) whose value derives from query.Get(<constant key>), followed
+// through helpers of the package: parameters stand for the arguments of the call we came through,
+// results for what the helper returns.
+func urlPairsReadSSA(fn *ssa.Function, typ string) map[string]string {
+	out := map[string]string{}
+	type frame struct {
+		call *ssa.Call
+		fn   *ssa.Function
+	}
+	paramArg := func(par *ssa.Parameter, stack []frame) (ssa.Value, []frame, bool) {
+		for i := len(stack) - 1; i >= 0; i-- {
+			if stack[i].fn == par.Parent() {
+				for k, q := range par.Parent().Params {
+					if q == par && k < len(stack[i].call.Call.Args) {
+						return stack[i].call.Call.Args[k], stack[:i], true
+					}
+				}
+			}
+		}
+		return nil, nil, false
+	}
+	var constKey func(v ssa.Value, stack []frame) (string, bool)
+	constKey = func(v ssa.Value, stack []frame) (string, bool) {
+		v = core.ValueOrigin(v)
+		if k, ok := v.(*ssa.Const); ok && k.Value != nil && k.Value.Kind() == constant.String {
+			return constant.StringVal(k.Value), true
+		}
+		if par, ok := v.(*ssa.Parameter); ok {
+			if a, st2, ok := paramArg(par, stack); ok {
+				return constKey(a, st2)
+			}
+		}
+		return "", false
+	}
+	isKetoHelper := func(h *ssa.Function) bool {
+		return h != nil && h.Blocks != nil && core.FuncPkg(h) != nil && core.FuncPkg(h) == core.FuncPkg(fn)
+	}
+	var keys func(v ssa.Value, stack []frame, depth int) []string
+	keys = func(v ssa.Value, stack []frame, depth int) []string {
+		if v == nil || depth > 12 {
+			return nil
+		}
+		v = core.ValueOrigin(v)
+		var out []string
+		switch x := v.(type) {
+		case *ssa.Parameter:
+			if a, st2, ok := paramArg(x, stack); ok {
+				return keys(a, st2, depth+1)
+			}
+		case *ssa.Phi:
+			for _, e := range x.Edges {
+				out = append(out, keys(e, stack, depth+1)...)
+			}
+		case *ssa.Alloc:
+			for _, st := range core.CellStores(x) {
+				out = append(out, keys(st.Val, stack, depth+1)...)
+			}
+		case *ssa.Extract:
+			if call, ok := x.Tuple.(*ssa.Call); ok {
+				if h := call.Call.StaticCallee(); isKetoHelper(h) && len(stack) < 3 {
+					st2 := append(append([]frame{}, stack...), frame{call, h})
+					core.Instrs(h, func(_ *ssa.BasicBlock, _ int, ins ssa.Instruction) {
+						if ret, ok := ins.(*ssa.Return); ok && x.Index < len(ret.Results) {
+							out = append(out, keys(ret.Results[x.Index], st2, depth+1)...)
+						}
+					})
+				}
+			}
+		case *ssa.Call:
+			if obj := core.CalleeObj(x.Common()); obj != nil && obj.Name() == "Get" && obj.Pkg() != nil && obj.Pkg().Path() == "net/url" {
+				if k, ok := constKey(x.Call.Args[len(x.Call.Args)-1], stack); ok {
+					return []string{k}
+				}
+				return nil
+			}
+			if h := x.Call.StaticCallee(); isKetoHelper(h) && len(stack) < 3 {
+				st2 := append(append([]frame{}, stack...), frame{x, h})
+				core.Instrs(h, func(_ *ssa.BasicBlock, _ int, ins ssa.Instruction) {
+					if ret, ok := ins.(*ssa.Return); ok && len(ret.Results) == 1 {
+						out = append(out, keys(ret.Results[0], st2, depth+1)...)
+					}
+				})
+				return out
+			}
+			for _, a := range x.Call.Args {
+				out = append(out, keys(a, stack, depth+1)...)
+			}
+		}
+		return out
+	}
+	// for a pointer to a struct literal: field -> keys
+	var fields func(v ssa.Value, stack []frame, depth int) map[string][]string
+	fields = func(v ssa.Value, stack []frame, depth int) map[string][]string {
+		res := map[string][]string{}
+		if v == nil || depth > 12 {
+			return res
+		}
+		merge := func(m map[string][]string) {
+			for k, vs := range m {
+				res[k] = append(res[k], vs...)
+			}
+		}
+		v = core.ValueOrigin(v)
+		switch x := v.(type) {
+		case *ssa.Parameter:
+			if a, st2, ok := paramArg(x, stack); ok {
+				merge(fields(a, st2, depth+1))
+			}
+		case *ssa.Phi:
+			for _, e := range x.Edges {
+				merge(fields(e, stack, depth+1))
+			}
+		case *ssa.Extract:
+			if call, ok := x.Tuple.(*ssa.Call); ok {
+				if h := call.Call.StaticCallee(); isKetoHelper(h) && len(stack) < 3 {
+					st2 := append(append([]frame{}, stack...), frame{call, h})
+					core.Instrs(h, func(_ *ssa.BasicBlock, _ int, ins ssa.Instruction) {
+						if ret, ok := ins.(*ssa.Return); ok && x.Index < len(ret.Results) {
+							merge(fields(ret.Results[x.Index], st2, depth+1))
+						}
+					})
+				}
+			}
+		case *ssa.Alloc:
+			if _, isStruct := deref(x.Type()).Underlying().(*types.Struct); isStruct && x.Referrers() != nil {
+				for _, ref := range *x.Referrers() {
+					fa, ok := ref.(*ssa.FieldAddr)
+					if !ok || fa.Referrers() == nil || fieldVarOf(fa) == nil {
+						continue
+					}
+					for _, r2 := range *fa.Referrers() {
+						if st, ok := r2.(*ssa.Store); ok && st.Addr == ssa.Value(fa) {
+							res[fieldVarOf(fa).Name()] = append(res[fieldVarOf(fa).Name()], keys(st.Val, stack, depth+1)...)
+						}
+					}
+				}
+			} else {
+				for _, st := range core.CellStores(x) {
+					merge(fields(st.Val, stack, depth+1))
+				}
+			}
+		}
+		return res
+	}
+	for _, g := range core.Closures(fn) {
+		core.Instrs(g, func(_ *ssa.BasicBlock, _ int, ins ssa.Instruction) {
+			st, ok := ins.(*ssa.Store)
+			if !ok {
+				return
+			}
+			fa, ok := st.Addr.(*ssa.FieldAddr)
+			if !ok || fieldVarOf(fa) == nil {
+				return
+			}
+			if n := core.NamedOf(fa.X.Type()); n == nil || n.Obj().Name() != typ {
+				return
+			}
+			f := fieldVarOf(fa).Name()
+			for _, k := range keys(st.Val, nil, 0) {
+				out[k] = f
+			}
+			for sub, ks := range fields(st.Val, nil, 0) {
+				for _, k := range ks {
+					out[k] = f + "." + sub
+				}
+			}
+		})
+	}
+	return out
+}
+
+func deref(t types.Type) types.Type {
+	if pt, ok := t.Underlying().(*types.Pointer); ok {
+		return pt.Elem()
+	}
+	return t
 }
